@@ -431,3 +431,42 @@ def _proj_capture(prop):
 
 for _p in ["C05", "C16", "C17"]:
     PROPS[_p]["project"] = _proj_capture(_p)
+
+
+def _c17_post(prop, results, root):
+    """Derived queries (descendants, ancestors, descendant events) computed by the model from the
+    REAL storage's raw links vs the real API's answers (decoupled from what was captured)."""
+    import subprocess
+    fails, n = [], 0
+    drv = root / "lean" / ".lake" / "build" / "bin" / "driver"
+    for r in results:
+        docs = r["dir"] / "capture.docs"
+        if not docs.exists():
+            continue
+        text = docs.read_text()
+        p = subprocess.run([str(drv), "forest"], input=text, capture_output=True, text=True)
+        impl = [l for l in text.splitlines() if l.startswith(("Q ", "F begin", "F end"))]
+        model = p.stdout.splitlines()
+        n += sum(1 for l in impl if l.startswith("Q "))
+        if impl != model:
+            k = next((i for i, (a, b) in enumerate(zip(impl, model)) if a != b), min(len(impl), len(model)))
+            fails.append(f"forest query differs: real API `{impl[k] if k < len(impl) else '<end>'}` vs model on the same links `{model[k] if k < len(model) else '<end>'}`")
+    return fails, {"forest_queries_compared": n}
+
+
+PROPS["C17"]["post"] = _c17_post
+PROPS["C17"]["project"] = lambda suite, lines: [l for l in lines if l == "panic" or "poisoned" in l]
+
+MANIFEST_TEXT["C19"] = dict(
+    text="Proof over an interleaving model (every subscriber call of a thread — registry bookkeeping plus the layer callbacks under the "
+         "storage lock — is one atomic step; per-thread span stacks; any number of threads, any schedule; threads may enter, record on, "
+         "follow and use as explicit parents the spans another thread created before they started): no callback panics, every storage "
+         "satisfies the structural laws of C17, and every layer's storage equals the reference `expectedStorageC` over the interleaved "
+         "call log — every enabled item captured exactly once in log order, parent = nearest captured ancestor of what the calling "
+         "thread's own stack (or the explicit parent) dictates, counts, follows edges, closed flags (C19_all_schedules); the log "
+         "restricted to a thread is that thread's own call sequence in emission order (C19_thread_order). Partial in the sense of "
+         "DESIGN §4: lock atomicity and the memory model are assumed. Tied to the code by forced schedules on real threads (one "
+         "operation at a time, storage compared with the model) and by 2-16 free-running threads checked per thread against the "
+         "single-threaded reference run and the C17 laws.",
+    note=_CAP_NOTE + "Assumed, not modelled: RwLock atomicity of callbacks, memory model, OS scheduling; the Registry's thread_local slot recycling is avoided by keeping harness threads alive.",
+    technique="Lean 4 proof (registry reference-count invariant over all interleavings, simulation against a declarative reference) + forced-schedule correspondence + free-running per-thread projection oracle")
